@@ -372,6 +372,14 @@ func NewOpLib() *OpLib {
 	exit("exit_p2_all_t1", "t1", 2, 1, 1, 0, "")
 	exit("exit_p1_1share_lp1", "lp1", 1, 0, 1, -1, "")
 	exit("exit_p1_90pct_lp1", "lp1", 1, 9, 10, 0, "")
+	// a third pool: ORACLE pool created far off its 50:50 target (10 % ATOM by value), rebalance treasury
+	// empty; one weight-breaking swap then funds the treasury with a little
+	l.Add("create_oracle_pool_imbalanced_lp1", "createpool", 0, func(w *World, p *BlockPlan) {
+		p.Txs = one("lp1", mkPoolMsg(w.A("lp1"), true, "uatom", 2e10, 9e11, 1, 1, "0.002"))
+	})
+	l.Add("swap_in_p3_usdc_atom_M", "swap", 0, func(w *World, p *BlockPlan) {
+		p.Txs = one("t1", swapIn(w.A("t1"), "", C("uusdc", 1e9), 1, rin(3, "uatom")))
+	})
 	l.Add("create_pool_lp1", "createpool", 0, func(w *World, p *BlockPlan) {
 		p.Txs = one("lp1", mkPoolMsg(w.A("lp1"), false, "uatom", 4e6, 5e6, 80, 20, "0.01"))
 	})
@@ -793,6 +801,7 @@ func NewOpLib() *OpLib {
 	addC20Ops(l)
 	addC10Ops(l)
 	addAutoCfgOps(l)
+	addDenomSweepOps(l)
 	return l
 }
 
